@@ -36,8 +36,9 @@ def chooser_runs(ctx, f: FunctionInfo):
                     for exp in (0, 1):
                         for flag in ((True, False) if keeps_flag else (None,)):
                             captured: list = []
+                            gene = c + 4 * exp + 8 * (M - 1)          # 0 .. 23 over the scenarios
 
-                            def call_model(it, call, env, args, kwargs, dist=dist, captured=captured):
+                            def call_model(it, call, env, args, kwargs, dist=dist, captured=captured, gene=gene):
                                 nm = call_name(call)
                                 if nm == "get_distance_to_terminal" and len(args) == 1 and isinstance(args[0], Sym):
                                     return dist.get(args[0].tag, UNKNOWN)
@@ -46,6 +47,10 @@ def chooser_runs(ctx, f: FunctionInfo):
                                     if not args[0]:
                                         it.throw("IndexError: choice from an empty list", call)
                                     return args[0][0]
+                                if nm == "get" and isinstance(call.func, ast.Attribute) and len(args) == 2:
+                                    recv_ = it.ev(call.func.value, env, 9)
+                                    if isinstance(recv_, Sym) and recv_.tag == "genotype":
+                                        return gene          # a gene of the genotype-backed deciders: any integer (varied over the scenarios)
                                 if nm == "get_weights":
                                     return {a.tag: 1.0 for a in alts}
                                 if nm == "get_max_node_depth":
@@ -57,7 +62,11 @@ def chooser_runs(ctx, f: FunctionInfo):
                             it = Interp(prog, cls, lambda *_: None, call_model, max_depth=6, max_traces=4)
                             it.strict_index = True
                             it.heap[("grammar", "recursive_prods")] = set(recset)
+                            # the grammar knows more symbols than the ones offered: a chooser that draws from the grammar's tables can return one of those
+                            it.heap[("grammar", "all_nodes")] = [Sym("other0")] + list(alts) + [Sym("other9")]
+                            it.heap[("grammar", "alternatives")] = {p_: [Sym("other0")] + list(alts) + [Sym("other9")] for p_ in ps if p_ not in (alts_p, ctx_p)}
                             env = {"self": Sym("self"), "self.max_depth": M, "self.grammar": Sym("grammar"), "self.random": Sym("random"),
+                                   "self.genotype": Sym("genotype"), "self.positions": {},
                                    alts_p: list(alts),
                                    ctx_p: Obj("LocalSynthesisContext", {"depth": c, "nodes": 1, "expansions": exp, "dependent_values": {}})}
                             if flag is not None:
@@ -94,7 +103,12 @@ def chooser_verdicts(ctx, f: FunctionInfo, exact: bool):
             continue
         n += 1
         if lst is None:
-            return (None, "no list reaches random.choice in the model"), (None, ""), (None, ""), n
+            # a genotype-backed chooser indexes the offer with a gene instead of handing a list to random.choice: only membership is decided here
+            if sound[0] is True:
+                sound = complete = (None, "no list reaches random.choice in the model")
+            if not (isinstance(rv, Sym) and any(rv is a or rv == a for a in alts)) and member[0] is True:
+                member = ((None if rv is UNKNOWN else False), f"with {scen} the chooser returns {rv!r}, not one of the offered alternatives")
+            continue
         bad = [a for a in lst if isinstance(a, Sym) and a.tag in scen["distances"] and scen["distances"][a.tag] > scen["max_depth"] - scen["depth"]]
         if bad and sound[0] is True:
             sound = (False, (f"with distances {scen['distances']}, max_depth {scen['max_depth']} and ctx.depth {scen['depth']} the list handed to random.choice "
